@@ -16,8 +16,11 @@ class LoggedProblem:
     """factory for a Problem subclass instance that logs every Calculate call"""
 
     @staticmethod
-    def make(fn, lower, upper, fail_at=None, exc=None):
+    def make(fn, lower, upper, fail_at=None, exc=None, fresh_holder=False):
+        """fresh_holder: Calculate leaves the holder it was given untouched and RETURNS a new FunctionValue carrying the value
+        (the Problem interface returns the holder and the library is written against the returned object)"""
         from iOpt.problem import Problem
+        from iOpt.trial import FunctionValue
 
         class P(Problem):
             def __init__(self):
@@ -45,6 +48,8 @@ class LoggedProblem:
                         self.fail_at = None if not getattr(self, "fail_forever", False) else self.fail_at
                         raise self.exc("objective failed on purpose")
                 v = fn(pt)
+                if fresh_holder:
+                    functionValue = FunctionValue(functionValue.type, functionValue.functionID)
                 functionValue.value = v
                 self.log.append((phase, pt, v, id(functionValue)))
                 return functionValue
